@@ -886,13 +886,13 @@ impl<'a, 'b> TryInto<AnnotationBuilder<'a>> for AnnotationCsv<'a> {
                         "",
                     ));
                 }
-                if self.targetkey.unwrap_or(Cow::Borrowed("")).find(";").is_some() {
+                if self.targetkey.as_ref().map(|x| x.find(";").is_some()).unwrap_or(false) {
                     return Err(StamError::CsvError(
                         format!("Multiple target keys were specified, but without a complex selector"),
                         "",
                     ));
                 }
-                if self.targetdata.unwrap_or(Cow::Borrowed("")).find(";").is_some() {
+                if self.targetdata.as_ref().map(|x| x.find(";").is_some()).unwrap_or(false) {
                     return Err(StamError::CsvError(
                         format!("Multiple target data were specified, but without a complex selector"),
                         "",
@@ -931,7 +931,28 @@ impl<'a, 'b> TryInto<AnnotationBuilder<'a>> for AnnotationCsv<'a> {
                         let dataset = self.targetdataset;
                         SelectorBuilder::DataSetSelector(BuildItem::Id(dataset.to_string()))
                     }
-                    _ => unreachable!(),
+                    SelectorKind::DataKeySelector => {
+                        let dataset = self.targetdataset;
+                        let key = self.targetkey.unwrap_or(Cow::Borrowed(""));
+                        SelectorBuilder::DataKeySelector(
+                            BuildItem::Id(dataset.to_string()),
+                            BuildItem::Id(key.to_string()),
+                        )
+                    }
+                    SelectorKind::AnnotationDataSelector => {
+                        let dataset = self.targetdataset;
+                        let data = self.targetdata.unwrap_or(Cow::Borrowed(""));
+                        SelectorBuilder::AnnotationDataSelector(
+                            BuildItem::Id(dataset.to_string()),
+                            BuildItem::Id(data.to_string()),
+                        )
+                    }
+                    _ => {
+                        return Err(StamError::CsvError(
+                            format!("Unexpected selector type"),
+                            "",
+                        ))
+                    }
                 }
             } else {
                 let targetresources: SmallVec<[&str; 1]> = self.targetresource.split(";").collect();
